@@ -26,6 +26,10 @@ Arr(s)    == [t |-> "arr", v |-> s]
 Hash(s)   == [t |-> "hash", v |-> s]                 \* ordered <<key, value>> pairs
 Range(a, b) == [t |-> "range", a |-> a, b |-> b]     \* inclusive a..b
 Err(c)    == [t |-> "err", cls |-> c]                \* evaluation failed with class c
+\* values the harness can hand to the library but whose arithmetic is outside this
+\* model (DESIGN.md section 10): floats (incl. nan / inf) and integers beyond 32 bits
+Flt(txt)  == [t |-> "float", f |-> txt]
+BigInt(d) == [t |-> "big", d |-> d]
 
 IsErr(v)  == v.t = "err"
 IsUndef(v) == v.t = "undef"
@@ -168,6 +172,11 @@ OutStrEsc(v) ==
 RECURSIVE Unprintable(_)
 Unprintable(v) == \/ v.t \in {"hash", "forloop"}
                   \/ (v.t = "arr" /\ \E i \in DOMAIN v.v : Unprintable(v.v[i]))
+
+RECURSIVE Exotic(_)
+Exotic(v) == \/ v.t \in {"float", "big"}
+             \/ (v.t = "arr" /\ \E i \in DOMAIN v.v : Exotic(v.v[i]))
+             \/ (v.t = "hash" /\ \E i \in DOMAIN v.v : Exotic(v.v[i][2]))
 
 \* str() as filters see it (string_filter decorator): like OutStr
 ToStr(v) == OutStr(v)
